@@ -33,7 +33,7 @@ OPEN_GOALS: list = []
 TECHNIQUE = ("Coq proof of the round-trip theorems of the dictionary layer (name lookup inverts .name under NoDup names; dict comprehension = item list under distinct keys; "
              "stable insertion sort is a permutation) and of parse_tree (print_tree t) = Some t for the concrete Gallina Newick printer/parser (nested induction on trees, "
              "proved fuel bound); model and printer/parser tied to the code and to ete3 by differential testing evaluated with vm_compute")
-LEVEL_TEXT = ("Machine-checked for trees of any size and arity: mapping_roundtrip, synteny_roundtrip (lists verbatim, sets through sort_synteny = a permutation), "
+LEVEL_TEXT = ("'Same events and cost after the round trip' is a theorem about the evaluator model (C11_same_events_and_cost_plain/_super: eval_routput/eval_soutput and the event list, for plain outputs, ordered outputs with sequences and all unordered outputs under any family numbering; ordered outputs holding sets are outside the domain, kernel-checked counter-example C11_ordered_sets_outside_domain). Machine-checked for trees of any size and arity: mapping_roundtrip, synteny_roundtrip (lists verbatim, sets through sort_synteny = a permutation), "
               "costs round trip, input_roundtrip (both input classes), output_roundtrip (both output classes: trees, leaf assignment, costs, species mapping, labelling, ordered flag; "
               "the nested input is re-read as a plain ReconciliationInput, its leaf syntenies are dropped - stated, not hidden), reserialise_fixpoint on those fields, "
               "and newick_roundtrip for the concrete printer/parser on names/colours over [A-Za-z0-9_]. "
